@@ -39,6 +39,12 @@ CHECKS = {
  "C03": ("exploration", "trace-specification monitor over packets written to subscriber pipes, driven by forced expiry sweeps and scripted client replies",
          "Seeded response scripts (acknowledge in round k or never, QoS 2 two-stage, wrong-type and unknown-identifier replies, session end) over 1-4 in-flight deliveries on 1-3 sessions; after every forced sweep and PINGRESP barrier each delivery is checked against the retransmission specification (>=1+k copies with the same identifier, PUBREL stage, nothing after completion, identifier back in the pool, identifiers freed after session end).",
          "The harness owns the ack.Queue and calls Expire with synthetic future times; hook H1 reads the pool's free list. Lower bounds only (the 1 s ticker may add copies).", "5/C03"),
+ "C05": ("fault_enumeration", "ordering monitor over one global sequence counter (log Append call/return, RPC call/return, client packet reads) with enumerated write-failure positions and a gated log",
+         "For each seeded packet sequence every single fault position (k-th local write, each remote node unreachable, each remote log rejecting; combinations in thorough) is executed on a fresh 1-3 node cluster; an acknowledgement must be read only after a successful Append returned on every node and never when a write failed; log offers per tag must equal completed PUBLISH->PUBREL handshakes. Gated scenarios make 'acknowledged while the write is blocked' observable independently of machine speed.",
+         "Failures are injected at the messageLog and RPC transport interfaces (the boundaries the property names). Every node hosts a matching subscriber.", "5/C05"),
+ "C14": ("fault_enumeration", "conservation monitor over per-node Append records, RPC records, PUBACKs and subscriber packets for every subset of unreachable destination nodes",
+         "Seeded placements over 2-3 nodes joined by real gRPC over bufconn; for every topic, publisher and every subset of unreachable nodes one tagged publish; appends per node and tag, deliveries per subscriber and filter and the presence of the acknowledgement are compared with the placement-derived expectation after a sentinel barrier.",
+         "Unreachability is injected at the transport's Call boundary. Gossip barrier before publishing.", "5/C14"),
 }
 NOT_YET = "check not built yet in this round (design in DESIGN.md section 5); will be claimed once its monitor exists"
 
